@@ -10,6 +10,7 @@ from .mir import Body
 
 VERIF = os.path.dirname(os.path.dirname(os.path.abspath(__file__)))
 _vocab = None
+ANON_HELPER_LOCALS = True
 
 
 def vocab():
@@ -133,7 +134,11 @@ def inline_json(facts, j, should_inline, depth, stack):
         poff = len(j.get('promoted', []))
         for i, l in enumerate(cj['locals']):
             l = dict(l)
-            if i <= cj['arg_count']:
+            # locals of a spliced helper are anonymous: no rule can know their names, and a name would stop the term
+            # reconstruction at a spelling chosen by the refactoring (single-definition locals expand like temporaries)
+            if i <= cj['arg_count'] or ANON_HELPER_LOCALS:
+                if l.get('names'):
+                    l['helper_names'] = l['names']
                 l['names'] = []
             j['locals'].append(l)
         j.setdefault('promoted', [])
